@@ -3,5 +3,5 @@ VIEW view
 INVARIANT InRange
 CHECK_DEADLOCK FALSE
 CONSTANTS
-  Values = {0, 7, 8, 9, 1344, 64999, 65000, 65001, 2000000000}
+  Values = {0, 7, 8, 9, 1344, 64999, 65000, 65001, 65535, 65536, 65543, 65544, 70000, 132416, 2000000000, 2000000001}
   MaxOps = 3
